@@ -2,6 +2,7 @@ package generator
 
 import (
 	"fmt"
+	"math"
 	"reflect"
 	"strings"
 
@@ -394,6 +395,19 @@ func (v *numericValidator) genBoundary(
 		return
 	}
 
+	limit := *boundary
+	if v.roundToInt && limit != math.Trunc(limit) {
+		// An integer is beyond a fractional limit exactly when it is beyond the nearest whole number
+		// inside the range, whether or not the limit itself is excluded.
+		if sign == ">" {
+			limit = math.Ceil(limit)
+		} else {
+			limit = math.Floor(limit)
+		}
+
+		exclusive = false
+	}
+
 	// Technically, this should be based on schema version, but that information is lost.
 	comp := sign
 	if exclusive {
@@ -403,9 +417,9 @@ func (v *numericValidator) genBoundary(
 		sign += "="
 	}
 
-	out.Printlnf(`if %s%v %s%s %s {`, checkPointer, v.valueOf(*boundary), comp, pointerPrefix, value)
+	out.Printlnf(`if %s%v %s%s %s {`, checkPointer, v.valueOf(limit), comp, pointerPrefix, value)
 	out.Indent(1)
-	out.Printlnf(`return fmt.Errorf("field %%s: must be %s %%v", %q, %v)`, sign, v.jsonName, v.valueOf(*boundary))
+	out.Printlnf(`return fmt.Errorf("field %%s: must be %s %%v", %q, %v)`, sign, v.jsonName, v.valueOf(limit))
 	out.Indent(-1)
 	out.Printlnf("}")
 }
